@@ -1274,6 +1274,15 @@ fn format_struct(
     output.push_str("struct ");
     output.push_str(&def.name);
 
+    if let Some((first, rest)) = def.base_types.split_first() {
+        output.push_str(" : ");
+        format_type(first, output, context)?;
+        for base_type in rest {
+            output.push_str(", ");
+            format_type(base_type, output, context)?;
+        }
+    }
+
     context.new_line(output);
     output.push('{');
     context.push_indent();
